@@ -183,8 +183,10 @@ class ParserBuild:
     pass
 
 
-def build_parser(gdir, gen_result):
+def build_parser(gdir, gen_result, impl_source=None):
     """gdir contains generated.rs; gen_result is the harness result (with dump).
+    impl_source: compile the driver against this file instead (the parser checked into /repo for lelwel's
+    own grammar), while the model side is still the translation of the freshly emitted generated.rs.
     returns ParserBuild or raises TranslateError / RuntimeError"""
     import rust2cmd
     import mkdriver
@@ -197,6 +199,10 @@ def build_parser(gdir, gen_result):
     pb.sexp = rust2cmd.program_sexp(pb.tr)
     pb.prog_path = os.path.join(gdir, 'program.sexp')
     open(pb.prog_path, 'w').write(pb.sexp)
+    if impl_source is not None:
+        gen_path = os.path.join(gdir, 'impl_generated.rs')
+        text = open(impl_source).read()
+        open(gen_path, 'w').write(text)
     drv = mkdriver.make_driver(gen_path, text, pb.tr, pb.tok_ids)
     open(os.path.join(gdir, 'driver.rs'), 'w').write(drv)
     pb.driver = os.path.join(gdir, 'driver')
